@@ -76,6 +76,19 @@ CHECKS = {
              "of names; the E204/E401 => add-rejects clause is checked in C06.",
         technique="CrossHair symbolic execution (z3) of the real, de-hashed wn.validate code vs. oracle",
         ref='4 C18'),
+    'C16': dict(
+        text="Independence from set iteration order decided by the solver: the wn modules are recompiled "
+             "with sets whose iteration order is a permutation chosen by symbolic integers, and each "
+             "covered function must return identical transcripts (list and mapping order included) in "
+             "identity order and in any chosen order (2-safety). Plus: read-only calls issue no DML on "
+             "the SQL model, are repeatable and do not depend on which Wordnet was queried before "
+             "(functools caches modelled). An AST inventory lists every set-building function and how "
+             "it is covered.",
+        note=NOTE_COMMON + DB_NOTE + "Order choices are bounded (3 varying choices in the quick tier). "
+             "SQLite's own row order, dump/export byte output (C02/C03) and thread scheduling are "
+             "outside. Counterexamples are replayed in sub-processes over PYTHONHASHSEED 0..11.",
+        technique="CrossHair symbolic execution (z3) with solver-chosen set iteration order (2-safety)",
+        ref='4 C16'),
     'C17': dict(
         text="Bounded symbolic model checking of the real wn.morphy.Morphy and wn._core._find_helper: "
              "for every query string up to the length bound (all code points) and every symbolic "
